@@ -402,16 +402,27 @@ func (da *DistributedAllocator) epochLoop(ctx context.Context) {
 		case <-ctx.Done():
 			return
 		case <-ticker.C:
-			da.mu.Lock()
-			// O(1) epoch advancement - no bitmap scanning!
-			newEpoch := da.epochAllocator.AdvanceEpoch()
-			da.mu.Unlock()
-
-			// Sync expired allocations from distributed store
-			// This is optional but keeps the store clean
-			da.cleanupExpiredFromStore(ctx, newEpoch)
+			da.tick(ctx)
 		}
 	}
+}
+
+// tick advances the epoch and removes expired allocations from the distributed store.
+// The store cleanup works from a snapshot (Query) and therefore runs under da.mu too:
+// without the lock it deleted the record a concurrent Allocate/Renew had just rewritten,
+// leaving a live lease without a record.
+func (da *DistributedAllocator) tick(ctx context.Context) uint64 {
+	da.mu.Lock()
+	defer da.mu.Unlock()
+
+	// O(1) epoch advancement - no bitmap scanning!
+	newEpoch := da.epochAllocator.AdvanceEpoch()
+
+	// Sync expired allocations from distributed store
+	// This is optional but keeps the store clean
+	da.cleanupExpiredFromStore(ctx, newEpoch)
+
+	return newEpoch
 }
 
 // cleanupExpiredFromStore removes expired allocations from the distributed store.
